@@ -336,6 +336,9 @@ def _check_accuracy(cell, case, ctx):
         ca = R.to_cartesian(sa, xa)
         cb = R.to_cartesian(sb, xb) if db else None
         out = op.ref(ca, cb, sc)
+        if any(isinstance(x, mpmath.mpc) for x in (out if op.result == "vec" else [out])):
+            # the reference leaves the real domain at the (perturbed) input: not a point where an error bound exists
+            raise Skip_("complex_reference")
         if op.result == "vec":
             if not R.representable(sysr, out):
                 raise Skip_("result_not_representable")
